@@ -932,6 +932,8 @@ impl WorldInner {
                 let code6 = match code4 {
                     0 => 0,
                     1 => 3,
+                    // port unreachable from a device on the path (a firewall answering for the target)
+                    3 => 4,
                     _ => 1,
                 };
                 let code = if wp.v6 { code6 } else { code4 };
